@@ -1,6 +1,9 @@
 package main
 
 import (
+	"os/exec"
+	"context"
+	"bytes"
 	"encoding/json"
 	"flag"
 	"fmt"
@@ -489,6 +492,17 @@ func writeReplay(verif, repo string, pd *PropDef, ob *eng.Obligation, ld *eng.Lo
 	scratch, _ := os.MkdirTemp("", "govc-replay")
 	defer os.RemoveAll(scratch)
 	out := ld.Eng.Replay(ob, repo, scratch)
+	if !out.Reproduced {
+		// no input could be built from the solver's model: try the prepared scenario recorded for this clause
+		if sc := scenarioReplay(verif, repo, ob.Name, scratch); sc != nil {
+			sc.Reason = "prepared scenario for this clause (not derived from the solver model; model-based replay: " + out.Reason + ")"
+			if sc.Reproduced {
+				out = *sc
+			} else {
+				out.Output += "\n--- prepared scenario " + sc.Command + " passed on this tree ---\n" + sc.Output
+			}
+		}
+	}
 	model := ob.Model
 	if len(model) > 20000 {
 		model = model[:20000] + "\n...(truncated)"
@@ -534,4 +548,82 @@ func cmdReplay(args []string) int {
 		}
 	}
 	return 0
+}
+
+// scenarioReplay runs the scenario test recorded in findings/index.json for an obligation against the
+// tree under test (go test -overlay: nothing is written to the repository).
+func scenarioReplay(verif, repo, obligation, scratch string) *eng.ReplayOutcome {
+	b, err := os.ReadFile(filepath.Join(verif, "findings", "index.json"))
+	if err != nil {
+		return nil
+	}
+	var idx map[string]json.RawMessage
+	if json.Unmarshal(b, &idx) != nil {
+		return nil
+	}
+	raw, ok := idx[obligation]
+	if !ok {
+		return nil
+	}
+	var ent struct{ File, Test string }
+	if json.Unmarshal(raw, &ent) != nil || ent.File == "" {
+		return nil
+	}
+	src, err := os.ReadFile(filepath.Join(verif, "findings", ent.File))
+	if err != nil {
+		return nil
+	}
+	dir := ""
+	for _, ln := range strings.Split(string(src), "\n") {
+		if strings.HasPrefix(ln, "// dir:") {
+			dir = strings.TrimSpace(strings.TrimPrefix(ln, "// dir:"))
+			break
+		}
+	}
+	if dir == "" {
+		return nil
+	}
+	pkgDir := filepath.Join(repo, dir)
+	ov := map[string]map[string]string{"Replace": {filepath.Join(pkgDir, "zz_verif_scenario_test.go"): filepath.Join(verif, "findings", ent.File)}}
+	ovb, _ := json.Marshal(ov)
+	ovFile := filepath.Join(scratch, "scenario_overlay.json")
+	os.WriteFile(ovFile, ovb, 0o644)
+	ctx, cancel := context.WithTimeout(context.Background(), 180*time.Second)
+	defer cancel()
+	cmd := exec.CommandContext(ctx, "go", "test", "-overlay", ovFile, "-vet=off", "-count=1", "-timeout", "90s", "-run", "^"+ent.Test+"$", ".")
+	cmd.Dir = pkgDir
+	var env []string
+	for _, kv := range os.Environ() {
+		if strings.HasPrefix(kv, "GOSUMDB=") || strings.HasPrefix(kv, "GOTOOLCHAIN=") || strings.HasPrefix(kv, "GOFLAGS=") {
+			continue
+		}
+		env = append(env, kv)
+	}
+	cmd.Env = append(env, "GOFLAGS=-mod=mod", "GOPROXY=off")
+	var buf bytes.Buffer
+	cmd.Stdout = &buf
+	cmd.Stderr = &buf
+	runErr := cmd.Run()
+	txt := buf.String()
+	if len(txt) > 6000 {
+		txt = txt[:6000]
+	}
+	out := &eng.ReplayOutcome{Attempted: true, TestSource: string(src), Output: txt,
+		Command: "cd " + pkgDir + " && go test -overlay <findings/" + ent.File + "> -vet=off -count=1 -run ^" + ent.Test + "$ ."}
+	if runErr != nil && strings.Contains(txt, "--- FAIL") {
+		out.Reproduced = true
+		out.Observed = firstFailLine(txt)
+		out.Expected = "the scenario test passes on a tree where the clause holds"
+	}
+	return out
+}
+
+func firstFailLine(txt string) string {
+	lines := strings.Split(txt, "\n")
+	for i, ln := range lines {
+		if strings.HasPrefix(strings.TrimSpace(ln), "--- FAIL") && i+1 < len(lines) {
+			return strings.TrimSpace(ln) + " " + strings.TrimSpace(lines[i+1])
+		}
+	}
+	return ""
 }
